@@ -31,8 +31,8 @@ K = 50.0  # measured on the unchanged tree: typically <= 6, isolated 30..42 (3 c
 K_LOWEST = 300.0  # two coefficients (order-2 method, error-per-step control): measured up to 107
 TIMEOUT = {"quick": 2400, "thorough": 3500}
 
-PROBLEMS = ["logistic3", "linear_forced", "harmonic2", "riccati", "bernoulli", "lotka", "vdp"]
-T_END = {"logistic3": 2.0, "linear_forced": 3.0, "harmonic2": 3.0, "riccati": 1.0, "bernoulli": 2.0, "lotka": 3.0, "vdp": 2.0}
+PROBLEMS = ["logistic3", "linear_forced", "harmonic2", "riccati", "bernoulli", "lotka", "vdp", "decay2"]
+T_END = {"logistic3": 2.0, "linear_forced": 3.0, "harmonic2": 3.0, "riccati": 1.0, "bernoulli": 2.0, "lotka": 3.0, "vdp": 2.0, "decay2": 9.0}
 
 
 def cases(tier, seed):
@@ -41,7 +41,7 @@ def cases(tier, seed):
     n_ad = 32 if tier == "quick" else 200
     for k in range(n_ad):
         prob = PROBLEMS[k % len(PROBLEMS)]
-        strategy = ["filter", "fixedpoint", "fixedinterval"][(k // 7) % 3] if tier == "thorough" else rng.choice(["filter", "fixedpoint", "fixedinterval"])
+        strategy = ["filter", "fixedpoint", "fixedinterval"][(k // 8) % 3] if tier == "thorough" else rng.choice(["filter", "fixedpoint", "fixedinterval"])
         out.append(
             {
                 "id": f"adaptive-{k}", "kind": "adaptive", "problem": prob, "fact": configs.FACTS[(k // 3) % 3], "cal": rng.choice(configs.CALS),
@@ -247,6 +247,11 @@ def _run_adaptive(case):
                 tol = float(10 ** r.uniform(-9, -2))
                 rtol = tol * (1.0 if r.random() < 0.5 else float(10 ** r.uniform(-1, 1)))
                 rtol = min(rtol, 1e-2)
+                if case["problem"] == "decay2":
+                    # |u| falls to 1e-4..1e-6: a relative tolerance orders of magnitude above the absolute one, so that the
+                    # two cannot be exchanged unnoticed (seed C01-s3 swapped them inside the rejection loop)
+                    rtol = float(10 ** r.uniform(-5, -3))
+                    tol = rtol * float(10 ** -r.uniform(3, 6))
                 mode = r.integers(0, 3)
                 if mode == 0:
                     dt0 = float(10 ** r.uniform(-4, 0))
@@ -301,8 +306,28 @@ def _run_adaptive(case):
             cfg["prior"], t0=t0, t1=T, atol=tol, rtol=tol, dt0=0.1)
         check(np.asarray([T]), np.asarray(term.u.mean[0], float).reshape(1, -1)[:, :d], tol, tol, "terminal values", {"layout": "terminal"})
     obs["max_error_over_tolerance"] = worst
+    viols = viols[:6]
+    if case["fact"] == "isotropic" and case["ts"] == "ts1" and nu + 1 >= 6 and viols:
+        # the isotropic model linearises with the trace-averaged Jacobian (documented; C02 checks that this is what the
+        # code does). Intervention: the same solve with the exact Jacobian (dense model). If that meets the tolerance, the
+        # exceedance is the high-order instability of inexact-Jacobian linearisation (finding D6), seen through this model.
+        cfg_d, _ = _cfg({**case, "fact": "dense", "strategy": "filter" if case["strategy"] == "fixedinterval" else case["strategy"]})
+        for v in viols:
+            if v["suboracle"] != "tolerance" or any(v["tags"].get(k) for k in ("forced_small_step", "clip_forced_short_step", "small_gap_after_node")):
+                continue
+            tg = v["tags"]
+            pts = [float(x) for x in v["witness"]["times"]]
+            pts = [t0, pts[-1]] if (len(pts) < 2 or tg.get("layout") == "every_step") else pts
+            fn = jax.jit(ivpsolve.solve_adaptive_save_at(solver=cfg_d["solver"], error=cfg_d["error"], clip_dt=bool(tg.get("clip", False)), while_loop=configs.bounded_while(20000)))
+            sol = fn(cfg_d["prior"], jnp.asarray(pts), atol=tg["atol"], rtol=tg["rtol"], dt0=float(tg.get("dt0", 0.1)))
+            if configs.adaptive_reached_end(sol, pts[-1]):
+                truth = configs.reference_solution(prob, np.asarray(pts))
+                r_ctrl = _judge(pts, np.asarray(sol.u.mean[0], float).reshape(len(pts), -1)[:, :d], truth, tg["atol"], tg["rtol"])
+                v["witness"]["ratio_with_exact_jacobian"] = r_ctrl
+                v["tags"]["exact_jacobian_control_ok"] = bool(r_ctrl <= (K if nu + 1 >= 3 else K_LOWEST))
+                obs["exceedances_diagnosed_by_intervention"] = obs.get("exceedances_diagnosed_by_intervention", 0) + 1
     sample = {"config": tags, "max_error_over_tolerance": worst, "max_steps": obs.get("max_steps")}
-    return {"violations": viols[:6], "obs": obs, "sigs": sorted(set(sigs)), "sample": sample}
+    return {"violations": viols, "obs": obs, "sigs": sorted(set(sigs)), "sample": sample}
 
 
 def _run_ladder(case):
